@@ -130,6 +130,24 @@ func fmaClass(x, y, u cls, mode decimal.RoundingMode) expect {
 	return expect{signKnown: true, sign: u.neg}
 }
 
+// cmpMagObs compares the magnitudes of two finite observations.
+func cmpMagObs(a, b Obs) int {
+	if a.Exp != b.Exp {
+		if a.Exp < b.Exp {
+			return -1
+		}
+		return 1
+	}
+	x, y := a.Digits, b.Digits
+	for len(x) < len(y) {
+		x += "0"
+	}
+	for len(y) < len(x) {
+		y += "0"
+	}
+	return strings.Compare(x, y)
+}
+
 type oracleC04 struct {
 	cnt        map[string]int
 	preLatched bool
@@ -274,6 +292,26 @@ func (o *oracleC04) after(c *stepCtx) *ViolationRec {
 				if post.Form != 0 || post.Neg != ex.zeroNeg {
 					return fail("wrong-zero-sum-sign", "x*y + (-(x*y)) must be an exact zero with sign bit %v under mode %d, got %s", ex.zeroNeg, mode, post.Value())
 				}
+			}
+		}
+	}
+	if ex.zeroSumChecked && (name == "Add" || name == "Sub") && post.Form == 0 && post.Acc != decimal.Exact {
+		// an inexact zero: the exact difference was not zero but too small to be
+		// represented; it keeps the sign of the exact result, i.e. of the operand
+		// with the larger magnitude
+		a, b := c.pre[op.A[0]], c.pre[op.A[1]]
+		bneg := b.Neg
+		if name == "Sub" {
+			bneg = !bneg
+		}
+		if m := cmpMagObs(a, b); m != 0 {
+			want := a.Neg
+			if m < 0 {
+				want = bneg
+			}
+			o.cnt["underflowed_difference_signs_checked"]++
+			if post.Neg != want {
+				return fail("wrong-result-sign", "the difference underflowed to a zero with sign bit %v; the exact result has sign bit %v", post.Neg, want)
 			}
 		}
 	}
